@@ -38,15 +38,24 @@ with open(os.path.join(V, 'selftest', 'MATRIX.md'), 'w') as fh:
 
 hist = json.load(open(os.path.join(V, 'seeded', 'history.json'))) if os.path.exists(os.path.join(V, 'seeded', 'history.json')) else {}
 rows = []
+det = {}
+p = os.path.join(V, 'out', 'selftest', 'seeded-detail.json')
+if os.path.exists(p):
+    det = json.load(open(p))
 for d in sorted(glob.glob(os.path.join(V, 'seeded', '*', 'meta.json'))):
     m = json.load(open(d))
-    keys = sorted(set('%s' % x['key'].split('|')[0] for x in m.get('detected_by', [])))
+    dd = det.get(m['id'], {})
+    own = sorted(set(k.split('|')[0] for k in dd.get(m['property'], [])))
+    other = sorted(set(k.split('|')[0] for pr, ks in dd.items() if pr != m['property'] for k in ks))
+    keys = own + (['(also: ' + ', '.join(other) + ')'] if other else [])
+    if not own:
+        keys = ['**not detected by %s**' % m['property']] + keys
     h = hist.get(m['id'], {})
     rows.append('| %s | %s | %s | %s | %s |' % (m['id'], m.get('title', '')[:110].replace('|', '/'), ', '.join(keys) or '**not detected**', h.get('initially', ''), h.get('then', '')))
 with open(os.path.join(V, 'seeded', 'MATRIX.md'), 'w') as fh:
     fh.write('# Seeded changes (written by independent sub-agents from the property text only)\n\n')
     fh.write('Each directory holds `patch.diff`, the demonstration `demo.rs` (fails with the change, passes without; the unedited suite still passes with the change — confirmed by `tools/verify_seed.sh` in a scratch worktree), `notes.md` and `meta.json`. '
-             '`./check selftest seeded` replays them. "initially" is what the checks said the first time the change was tried; "then" is what was strengthened.\n\n')
+             '`./check selftest seeded` replays them. "reported by" is the last full replay over all twenty checks (`out/selftest/seeded-detail.json`): rules of the change's own property first, other properties' rules in brackets. "initially" is what the checks said the first time the change was applied to /repo (`tools/try_seed.sh`); "then" is what was strengthened.\n\n')
     fh.write('%d changes, %d detected now.\n\n' % (len(rows), sum(1 for r in rows if 'not detected' not in r)))
     fh.write('| id | change | reported by (rules) | initially | then |\n|---|---|---|---|---|\n')
     fh.write('\n'.join(rows) + '\n')
